@@ -58,7 +58,7 @@ def one(ctx, data, meta, html, tmpdir, rng, edits=True, reads=None):
     # the hypotheses of C16_reextract (same relationships listed by the saved archive, no content part under a numbering / relationships name,
     # goodTree of every content source tree), evaluated by the model on this package
     hy = ctx.drv.ask({**pk.model_case(data, html, True)[0], 'op': 'savehyp'})
-    ctx.count('hypotheses of C16_reextract hold' if all(hy.get(k) is True for k in ('files_same', 'saveSane', 'goodTree')) else 'hypotheses of C16_reextract: ' + json.dumps(hy, sort_keys=True))
+    ctx.count('hypotheses of C16_reextract / C16_images_core_same hold' if all(hy.get(k) is True for k in ('files_same', 'saveSane', 'goodTree', 'imagesSane')) else 'hypotheses of C16_reextract: ' + json.dumps(hy, sort_keys=True))
     # same extraction
     i0, m0 = pk.both(ctx.drv, data, html, True, want=['plain', 'runs', 'text', 'comments', 'core', 'images'])
     i1, m1 = pk.both(ctx.drv, b1, html, True, want=['plain', 'runs', 'text', 'comments', 'core', 'images'])
